@@ -125,6 +125,19 @@ def overloadFunction (s : BState) (srcFlags index oldindex typemod : Nat) : BSta
   | none => s
   | some old => bumpCount (latestWins (addAlias s index oldindex) old srcFlags index oldindex typemod) srcFlags oldindex
 
+/-- one iteration of copy_functions: runtime slot i of the inherited program Q (= world program q) -/
+def copyStep (w : World) (q : Nat) (Q : Program) (mods : Nat) (s : BState) (i : Nat) : BState :=
+  match chase w w.fuel q i 0 0 with
+  | none => s
+  | some fr =>
+    match (w.progs[fr.prog]?.bind (·.ft[fr.fidx]?)) with
+    | none => s
+    | some fe =>
+      let srcFlags := Q.flags.getD i 0
+      match s.ident fe.name with
+      | some num => overloadFunction s srcFlags i num mods
+      | none => copyFunction s srcFlags i mods fe.name
+
 /-- the inheritance rule of grammar.y + copy_variables (count only) + copy_functions -/
 def doInherit (w : World) (s : BState) (mods q : Nat) : BState :=
   match w.progs[q]? with
@@ -132,17 +145,7 @@ def doInherit (w : World) (s : BState) (mods q : Nat) : BState :=
   | some Q =>
     let s := { s with inherits := s.inherits ++ [{ prog := q, fio := s.slots.length, vio := s.nvars, typeMod := mods }],
                       nvars := s.nvars + Q.nvt }
-    (List.range Q.flags.length).foldl (fun s i =>
-      match chase w w.fuel q i 0 0 with
-      | none => s
-      | some fr =>
-        match (w.progs[fr.prog]?.bind (·.ft[fr.fidx]?)) with
-        | none => s
-        | some fe =>
-          let srcFlags := Q.flags.getD i 0
-          match s.ident fe.name with
-          | some num => overloadFunction s srcFlags i num mods
-          | none => copyFunction s srcFlags i mods fe.name) s
+    (List.range Q.flags.length).foldl (copyStep w q Q mods) s
 
 /-- define_new_function (name, num_arg = 0, num_local, flags, type): `flags` = NAME_UNDEFINED|NAME_PROTOTYPE for the
     header / a prototype, 0 for the definition proper; all generated functions are typed, so exact_types is on -/
